@@ -24,25 +24,20 @@ WR = "clematis/engine/orchestrator/reflection.py:"
 R.uf("sha256_hex", ["str"], "str")
 
 # ------------------------------------------------------------------ _truncate_tokens
-TOKS = "text.split(' ')"
+# "a summary within the token limit": tokens are whitespace separated words -- the unit reflect() itself reports
+# (`summary_len = len(summary.split())`) and the unit of t3.reflection.summary_tokens.  (A first version of this
+# contract counted `split(" ")` pieces, i.e. it encoded the code; stated in whitespace tokens the clause failed for
+# texts with tabs / newlines from the LLM backend, see DESIGN section 8.)
 R.contract(
     RF + "_truncate_tokens", "C19",
     types={"text": "str", "max_tokens": "int"},
     returns="str",
-    axioms=[
-        # (SPLIT-NOSEP) for this text
-        "no_space_in(" + TOKS + ")",
-        # (JOIN-SPLIT) for the two lists the function joins
-        "implies(len(" + TOKS + ") >= 1 and no_space_in(" + TOKS + "), seq_eq(' '.join(" + TOKS + ").split(' '), " + TOKS + "))",
-        "implies(max_tokens >= 1 and len(" + TOKS + ") > max_tokens and no_space_in(" + TOKS + "[:max_tokens]), "
-        " seq_eq(' '.join(" + TOKS + "[:max_tokens]).split(' '), " + TOKS + "[:max_tokens]))",
-    ],
     ensures=[
-        ("at-most-limit-tokens", "ntokens(result) <= max(max_tokens, 0)"),
+        ("at-most-limit-tokens", "ws_tokens(result) <= max(max_tokens, 0)"),
         ("nonpositive-limit-or-empty-text-gives-empty", "implies(max_tokens <= 0 or text == '', result == '')"),
         ("keeps-the-first-tokens",
-         "implies(max_tokens > 0 and text != '', "
-         " seq_eq(result.split(' '), " + TOKS + "[:min(max_tokens, len(" + TOKS + "))]))"),
+         "implies(max_tokens > 0 and text != '', len(result.split()) == min(max_tokens, len(text.split())) and "
+         "forall(i, 0 <= i < len(result.split()), result.split()[i] == text.split()[i]))"),
     ],
     raises="none",
     modifies=[],
@@ -260,7 +255,7 @@ for _cfg, _nm, _lim in [("ReflCfg", "_reflect_rulebased", "reflection_cfg['summa
     R.contract(
         RF + "_reflect_rulebased", "C19", name=_nm, callee=(_cfg == "ReflCfg"),
         types={"bundle": "ReflectionBundle", "reflection_cfg": _cfg, "ops_cap": "int", "embedder": "OptEmbedFn"},
-        ensures=[("summary-within-token-limit", "ntokens(result.summary) <= max(%s, 0)" % _lim)] + ENTRY_CLAUSES,
+        ensures=[("summary-within-token-limit", "ws_tokens(result.summary) <= max(%s, 0)" % _lim)] + ENTRY_CLAUSES,
         raises="none",
         modifies=[],
     )
@@ -281,7 +276,7 @@ R.contract(
     RF + "_reflect_llm", "C19",
     types={"bundle": "ReflectionBundle", "cfg_root": "LLMCfgRoot", "reflection_cfg": "ReflCfg", "ops_cap": "int",
            "embedder": "OptEmbedFn"},
-    ensures=[("summary-within-token-limit", "ntokens(result.summary) <= max(reflection_cfg['summary_tokens'], 0)"),
+    ensures=[("summary-within-token-limit", "ws_tokens(result.summary) <= max(reflection_cfg['summary_tokens'], 0)"),
              ("only-with-enabled-fixtures", "cfg_root['t3']['llm']['fixtures']['enabled']"),
              ("summary-not-empty-implies-positive-limit", "implies(result.summary != '', reflection_cfg['summary_tokens'] > 0)")]
     + ENTRY_CLAUSES,
